@@ -1067,6 +1067,57 @@ fn source_diff(cx: &mut Ctx) {
 
 // ---------------------------------------------------------------------------------------------
 
+/// frames with elements that are not bulk strings (integers, nil, status, nested arrays) and values
+/// that are not arrays: outside the model (`List Bytes`), the two RESP parsers are compared directly
+fn nonbulk(cx: &mut Ctx, rng: &mut Rng) {
+    #[derive(Clone)]
+    enum El { B(Vec<u8>), I(i64), Nil, S(String), A }
+    let to_sim = |e: &El| match e {
+        El::B(b) => RespValue::BulkString(Some(b.clone())),
+        El::I(i) => RespValue::Integer(*i),
+        El::Nil => RespValue::BulkString(None),
+        El::S(s) => RespValue::SimpleString(s.clone().into()),
+        El::A => RespValue::Array(Some(vec![])),
+    };
+    let to_zc = |e: &El| match e {
+        El::B(b) => RespValueZeroCopy::BulkString(Some(Bytes::from(b.clone()))),
+        El::I(i) => RespValueZeroCopy::Integer(*i),
+        El::Nil => RespValueZeroCopy::BulkString(None),
+        El::S(s) => RespValueZeroCopy::SimpleString(Bytes::from(s.clone().into_bytes())),
+        El::A => RespValueZeroCopy::Array(Some(vec![])),
+    };
+    let line = |r: Result<Result<Command, String>, ()>| match r {
+        Ok(Ok(c)) => canon(&c),
+        Ok(Err(e)) => format!("ERR {}", e),
+        Err(()) => "crash".to_string(),
+    };
+    for sh in SHAPES {
+        for _ in 0..3 {
+            let mut els: Vec<El> = base_frame(rng, sh, 0).into_iter().map(El::B).collect();
+            for _ in 0..rng.below(3) { els.push(El::B(slot(rng, 'I'))); }
+            let pos = rng.below(els.len() as u64) as usize;
+            els[pos] = match rng.below(5) { 0 => El::I(*rng.pick(&[0i64, 1, -1, 5, i64::MAX, i64::MIN])), 1 => El::Nil, 2 => El::S("OK".into()), 3 => El::A, _ => El::I(rng.below(20) as i64) };
+            let a = line(quiet_panics(|| Command::from_resp(&RespValue::Array(Some(els.iter().map(to_sim).collect())))));
+            let b = line(quiet_panics(|| Command::from_resp_zero_copy(&RespValueZeroCopy::Array(Some(els.iter().map(to_zc).collect())))));
+            cx.out.count("non-bulk-frame");
+            if a != b && !(sh.name == "ACL" || sh.name == "LPUSH" || sh.name == "RPUSH" || sh.name == "SADD") {
+                cx.out.violation(&format!("C16:parsers-differ:non-bulk:{}", sh.name), "from_resp and from_resp_zero_copy disagree on a frame with a non-bulk element",
+                    json!({"from_resp": a, "from_resp_zero_copy": b, "position": pos}));
+            }
+        }
+    }
+    let tops_sim = [RespValue::Array(None), RespValue::Array(Some(vec![])), RespValue::BulkString(Some(b"PING".to_vec())), RespValue::Integer(1), RespValue::SimpleString("PING".into())];
+    let tops_zc = [RespValueZeroCopy::Array(None), RespValueZeroCopy::Array(Some(vec![])), RespValueZeroCopy::BulkString(Some(Bytes::from_static(b"PING"))), RespValueZeroCopy::Integer(1), RespValueZeroCopy::SimpleString(Bytes::from_static(b"PING"))];
+    for (x, y) in tops_sim.iter().zip(tops_zc.iter()) {
+        let a = line(quiet_panics(|| Command::from_resp(x)));
+        let b = line(quiet_panics(|| Command::from_resp_zero_copy(y)));
+        cx.out.count("non-array-value");
+        if a != b {
+            cx.out.violation("C16:parsers-differ:non-array-value", "from_resp and from_resp_zero_copy disagree on a value that is not an array", json!({"from_resp": a, "from_resp_zero_copy": b}));
+        }
+    }
+}
+
 fn fr(parts: &[&[u8]]) -> Frame {
     parts.iter().map(|p| p.to_vec()).collect()
 }
@@ -1175,6 +1226,7 @@ pub fn run(a: &Args) {
     float_sweep(&mut cx, &mut rng, (a.n / 4).max(200));
     luaconv(&mut cx, &mut rng, (a.n / 10).max(100));
     systematic(&mut cx, &mut rng);
+    nonbulk(&mut cx, &mut rng);
     let mut done = 0u64;
     while done < a.n {
         let sh = rng.pick(SHAPES);
